@@ -137,6 +137,8 @@ def gen_program(rng, module_mode=False, force_imports=None):
     # imports find; how *often* it is there differs legitimately between `python x.py` and `python -m kernprof x.py` started in that directory)
     lines.append('    import os as _os, sys as _sys')
     lines.append('    print("own directory on sys.path:", any(_os.path.realpath(p or _os.getcwd()) == _os.path.dirname(_os.path.realpath(__file__)) for p in _sys.path))')
+    # the file name its code objects carry is the one the program knows itself by (own-frame filters of loggers / warning filters compare them)
+    lines.append('    print("code objects carry __file__:", (lambda: 0).__code__.co_filename == __file__)')
     for ex in exprs:
         lines.append('    print(%r, repr(%s))' % (ex[:30], ex))
     text = '\n'.join(lines) + '\n'
